@@ -276,7 +276,12 @@ func (r *result) adjustAnnotations(annotations map[string]string, plugin string)
 		delete(del, k)
 	}
 
+	// apply removals with no corresponding additions: release any earlier claim,
+	// drop the annotation from the request and from the collected adjustments
 	for k := range del {
+		r.owners.clearAnnotation(id, k)
+		delete(create.Container.Annotations, k)
+		delete(r.reply.adjust.Annotations, k)
 		r.reply.adjust.Annotations[MarkForRemoval(k)] = ""
 	}
 
